@@ -61,6 +61,8 @@ structure SyncCase where
   outcome : String
   after : List Int
   cacheIntact : Bool
+  /-- the parent as the API server holds it after the sync (none: gone, or not recorded) -/
+  parentAfter : Option J := none
   deriving Inhabited
 
 namespace SyncCase
